@@ -66,7 +66,27 @@ def task_src(t):
     return "%s(\n  %s,\n)\n" % (k, ",\n  ".join(parts))
 
 
-def write_project(root, tasks, disable_git=True, extra_files=None):
+def task_src_reused_containers(t):
+    """The same definition written the way parameter sweeps are written: one list / dict per COND file that is
+    updated in place before each declaration (and again afterwards)."""
+    k = t["kind"]
+    parts = ["name=%r" % t["name"]]
+    pre = []
+    if k in PROC_KINDS:
+        parts.append("run=%r" % t["run"])
+        if t["par"]:
+            parts.append("parallelizable=True")
+        pre.append("_ARGS[:] = [%s]" % ", ".join(py_lit(a) for a in t["args"]))
+        pre.append("_OPTS.clear()")
+        pre.append("_OPTS.update({%s})" % ", ".join("%r: %s" % (kk, py_lit(vv)) for kk, vv in t["options"].items()))
+        parts.append("args=_ARGS")
+        parts.append("options=_OPTS")
+    pre.append("_DEPS[:] = [%s]" % ", ".join(repr(d) for d in t["dep_strs"]))
+    parts.append("deps=_DEPS")
+    return "%s\n%s(\n  %s,\n)\n" % ("\n".join(pre), k, ",\n  ".join(parts))
+
+
+def write_project(root, tasks, disable_git=True, extra_files=None, reused_containers=False):
     os.makedirs(root, exist_ok=True)
     with open(os.path.join(root, "cond_config.toml"), "w") as f:
         if disable_git:
@@ -78,7 +98,11 @@ def write_project(root, tasks, disable_git=True, extra_files=None):
         d = os.path.join(root, pkg)
         os.makedirs(d, exist_ok=True)
         with open(os.path.join(d, "COND"), "w") as f:
-            f.write("\n".join(task_src(t) for t in ts))
+            if reused_containers:
+                f.write("_ARGS, _OPTS, _DEPS = [], {}, []\n" + "\n".join(task_src_reused_containers(t) for t in ts)
+                        + "\n_ARGS[:] = ['left-over', 'of', 'the', 'loop']\n_OPTS['left-over'] = True\n_DEPS[:] = []\n")
+            else:
+                f.write("\n".join(task_src(t) for t in ts))
     for rel, content in (extra_files or {}).items():
         p = os.path.join(root, rel)
         os.makedirs(os.path.dirname(p), exist_ok=True)
